@@ -218,4 +218,4 @@ pub fn ticks_3c(property: &'static str, offset: u32, q: bool) -> EvCell {
     }
 }
 
-pub const RULE: &str = "histories of structural operations and emissions of dependent / mapped / independent events and triggers (before or after the spawn they reference, on tick and non-tick frames) x relative delays between the update channel (up to 3 pending messages) and the event channels with <= d deviations; at every delivery the client's update tick is compared with the last update message the server had sent before the event and every reference is resolved through the entity map; non-trivial = an event was emitted and observed";
+pub const RULE: &str = "histories of structural operations and emissions of dependent / mapped / independent events and triggers (before or after the spawn they reference, on tick and non-tick frames) x relative delays between the update channel (up to 3 pending messages) and the event channels with <= d deviations; at every delivery the client's update tick is compared with the last update message the server had sent before the event and every reference is resolved through the entity map (including a client whose replica has the very bits of a server entity hidden from it); non-trivial = an event was emitted and observed";
